@@ -40,9 +40,6 @@ pub open spec fn true_decimals(w: World, factory: Seq<char>, i: AssetInfo) -> Op
         AssetInfo::Token { contract_addr } => if w.tok_decimals.dom().contains(contract_addr@) { Some(w.tok_decimals[contract_addr@]) } else { None },
     }
 }
-pub uninterp spec fn pair_self_report(w: World, pair: Seq<char>) -> PairInfo;   // what the pair's own Pair{} query answers
-#[verifier::external_body] pub fn query_pair_info_from_pair(querier: &QuerierWrapper, pair_contract: Addr) -> (r: StdResult<PairInfo>)
-    ensures r is Ok ==> r->Ok_0 == pair_self_report(querier.world(), pair_contract.0@) { unimplemented!() }
 // Decimal256 -> text -> Decimal256 (C18 is n/a): ASSUMED identity
 #[verifier::external_body] pub fn decimal256_reparse(d: Decimal256) -> (r: Decimal256) ensures r == d { unimplemented!() }
 pub open spec fn default_rate() -> Decimal256 { Decimal256(U256([3_000_000_000_000_000u64, 0, 0, 0])) }   // "0.003"
